@@ -10,9 +10,9 @@ ID = 'C11'
 TITLE = 'signature opcodes with pretend-valid pairs in the session (listed pair accepted in every signature opcode and script version; other signatures for a mocked key decided by the real check; unlisted keys unaffected) and Instance::parse_pretend_valid_expr'
 TUS = base.TUS; SHIMS = ['sess', 'mock']; NATIVE_TUS = base.NATIVE_TUS
 FUNCTIONS = ['EvalChecksig mock short-circuit', 'OP_CHECKMULTISIG mock branch', 'Instance::parse_pretend_valid_expr', 'Value(const char*) / data_value for the pair strings']
-ASSUMPTIONS = C02.ASSUMPTIONS + ['in OP_CHECKMULTISIG a mocked key offered a different signature is counted as failed without the real check; whether the real check should still run is not prescribed, those inputs are skipped']
+ASSUMPTIONS = C02.ASSUMPTIONS + ['in OP_CHECKMULTISIG a mocked key offered an UNLISTED signature: whether the real check still runs is not prescribed, those inputs are skipped; a mocked key offered a signature listed for another key must simply not match (listed signatures are exempt from the encoding rules, doc/mock-values.md)']
 OUTSIDE = ['more than 2 pairs', 'pair strings using inline function expressions']
-BOUNDS = 'pairs: 1-2, signature 1/9/64 bytes, key 1/32/33 bytes, all bytes symbolic; opcodes CHECKSIG, CHECKSIGVERIFY, CHECKSIGADD, CHECKMULTISIG(VERIFY) 1-of-1 and 1-of-2; 4 script versions; pair-list strings with symbolic hex digits and malformed lists'
+BOUNDS = 'pairs: 1-2, signature 1/9/64 bytes, key 1/32/33 bytes, all bytes symbolic; opcodes CHECKSIG, CHECKSIGVERIFY, CHECKSIGADD, CHECKMULTISIG(VERIFY) 1-of-1, 1-of-2 (one or both keys listed) and 2-of-3; 4 script versions; pair-list strings with symbolic hex digits and malformed lists'
 
 def setup(E): C02.setup(E)
 
@@ -36,6 +36,10 @@ def obligations(tier, seed):
                 for rel in ('same', 'free'):
                     add(op=o, sv=sv, lens=(0, 9, 1, 33, 1), cvals={'2': [1], '4': [1]}, pairs=[(9, 33)], rel=rel)
                     add(op=o, sv=sv, lens=(0, 1, 1, 33, 33, 1), cvals={'2': [1], '5': [2]}, pairs=[(1, 33)], rel=rel)
+                # two listed pairs whose keys are both in a 1-of-2 multisig; the signature offered is the partner of the key tried second (seed C11-1)
+                for sl in (1, 9):
+                    add(op=o, sv=sv, lens=(0, sl, 1, 33, 33, 1), cvals={'2': [1], '5': [2]}, pairs=[(sl, 33), (sl, 33)], rel='same2')
+                add(op=o, sv=sv, lens=(0, 1, 1, 1, 33, 33, 33, 1), cvals={'3': [2], '7': [3]}, pairs=[(1, 33), (1, 33)], rel='same2of3')
     for s in ['aa:bb', '0xaa:0xbb', 'aa:bb,cc:dd', 'aa', 'aa:bb:cc', 'aa,bb', 'aa:', 'aa:bb,cc:', '', 'aabbccddee:a1a2a3a4a5', '1:2']:
         obs.append(dict(kind='parse', name='parse/' + s, s=s))
     obs.append(dict(kind='parsesym', name='parse/sym-hex', pat='??:??????'))
@@ -54,6 +58,10 @@ def build(ob, V=None):
         sig_i, key_i = {0xac: (0, 1), 0xad: (0, 1), 0xba: (0, 2), 0xae: (1, 3), 0xaf: (1, 3)}[ob['op']]
         stack = inputs['stack']
         stack[sig_i][:] = pairs[0][0]; stack[key_i][:] = pairs[0][1]
+    if ob['rel'] == 'same2':          # [dummy, S0, 1, P0, P1, 2]: P1 (top-most) is tried first with S0, then P0
+        stack = inputs['stack']; stack[1][:] = pairs[0][0]; stack[3][:] = pairs[0][1]; stack[4][:] = pairs[1][1]
+    if ob['rel'] == 'same2of3':       # [dummy, S0, S1, 2, P0, P1, Q, 3]: unlisted-or-listed Q first (free), then P1 with S1 ... signatures in key order
+        stack = inputs['stack']; stack[1][:] = pairs[0][0]; stack[2][:] = pairs[1][0]; stack[4][:] = pairs[0][1]; stack[5][:] = pairs[1][1]; stack[6][:] = pairs[1][1]
     # the session's map is keyed by signature: a later pair with an equal signature replaces the earlier one; keep the reference simple by assuming distinct signatures
     if len(pairs) == 2 and V is None and len(pairs[0][0]) == len(pairs[1][0]) and pairs[0][0]:
         assume = assume + [z3.Not(R.items_equal(pairs[0][0], pairs[1][0]))]
